@@ -46,6 +46,17 @@ func c01Devs() []c01Dev {
 	d = append(d, c01Dev{"mac-other-key", func(p *rtr.Pkt, c *rtr.Case, v int, key []byte) {
 		reMAC(p, c, v, rtr.KeyOther, func(*uint16, *uint32, *uint8, *uint16, *uint16) {})
 	}, codeInvalidMAC})
+	// a MAC under a key that shares a prefix with the router's: the first 16 bytes of a longer key, or the key with its
+	// last byte altered
+	d = append(d, c01Dev{"mac-key-prefix-or-last-byte", func(p *rtr.Pkt, c *rtr.Case, v int, key []byte) {
+		k := append([]byte{}, key...)
+		if len(k) > 16 {
+			k = k[:16]
+		} else {
+			k[len(k)-1] ^= 1
+		}
+		reMAC(p, c, v, k, func(*uint16, *uint32, *uint8, *uint16, *uint16) {})
+	}, codeInvalidMAC})
 	mk("mac-over-segid^1", func(s *uint16, _ *uint32, _ *uint8, _, _ *uint16) { *s ^= 1 })
 	mk("mac-over-segid^0x8000", func(s *uint16, _ *uint32, _ *uint8, _, _ *uint16) { *s ^= 0x8000 })
 	mk("mac-over-ts+1", func(_ *uint16, ts *uint32, _ *uint8, _, _ *uint16) { *ts++ })
@@ -149,7 +160,7 @@ func c01Emitted(b []byte) string {
 func TestC01(t *testing.T) {
 	r := mc.NewRun(t, "C01", mc.Exploration)
 	r.Rule = "every path shape x position of the AS x interface choice x arrival link kind (rtr.Cases) x {SCION,EPIC} x " +
-		"extension headers x 2 keys x {single,multi BR}; deviations on each hop the router must validate: 12 MAC bit flips, " +
+		"extension headers x keys (two 16-byte, multi BR also 24- and 32-byte) x {single,multi BR}; deviations on each hop the router must validate: 12 MAC bit flips, " +
 		"MAC under another key, MAC over a wrong SegID/timestamp/ExpTime/ingress/egress, expiry at -1s/0/+1s for ExpTime 0,63,255; " +
 		"deviation bound 1 (quick) / 2 (thorough); the defective hop (MAC deviations and expiry -1s alike) x router-alert flags {none, I, E, I+E on " +
 		"that hop, I+E on every validated hop} x payload {UDP, SCMP traceroute request, SCMP echo request, SCMP error} (quick: 8 representative " +
@@ -171,7 +182,11 @@ func TestC01(t *testing.T) {
 		now := uint32(bubbleStart.Unix())
 		var jobs []job
 		for _, multi := range []bool{false, true} {
-			for _, key := range [][]byte{rtr.KeyA, rtr.KeyB} {
+			keys := [][]byte{rtr.KeyA, rtr.KeyB}
+			if multi {
+				keys = append(keys, rtr.KeyL24, rtr.KeyL32) // AES-192 / AES-256 forwarding keys
+			}
+			for _, key := range keys {
 				jobs = append(jobs, job{multi: multi, key: key, prm: rtr.Params{TS: now - 100, Exp: 63}, mode: "main"})
 			}
 		}
@@ -523,7 +538,7 @@ func TestC01(t *testing.T) {
 	})
 	r.Assumptions = []string{"verdict at the exact expiry instant (offset 0) is not fixed by the statement: recorded, either accepted",
 		"dropping instead of answering is allowed by the statement; when answered, type/code/pointer are checked",
-		"forwarding keys: 2 concrete 16-byte keys; MACs are concrete AES-CMAC values, not symbolic",
+		"forwarding keys: 2 concrete 16-byte keys and (multi-router configuration) one 24-byte and one 32-byte key; MACs are concrete AES-CMAC values, not symbolic",
 		"router alert: a packet whose defective hop field carries alert flags must still only be dropped or answered with the parameter problem (a " +
 			"traceroute reply, or the packet handed back for transmission on the ingress link, counts as an emission of the failing packet); the one " +
 			"combination not demanded: an alert addressed to the ingress router on the arrival hop field, which itself passes both checks, may be " +
